@@ -165,8 +165,11 @@ class STIXPatternVisitorForSTIX2():
     # Visit a parse tree produced by STIXPatternParser#propTestEqual.
     def visitPropTestEqual(self, ctx):
         children = self.visitChildren(ctx)
-        operator = children[1].symbol.type
-        negated = operator != self.parser_class.EQ
+        # children: lhs, [NOT,] operator, rhs
+        has_not = len(children) > 3
+        operator = children[2 if has_not else 1].symbol.type
+        # "!=" is modelled as a negated "="; a leading NOT negates once more
+        negated = has_not != (operator != self.parser_class.EQ)
         return self.instantiate(
             "EqualityComparisonExpression", children[0], children[3 if len(children) > 3 else 2],
             negated,
@@ -175,55 +178,57 @@ class STIXPatternVisitorForSTIX2():
     # Visit a parse tree produced by STIXPatternParser#propTestOrder.
     def visitPropTestOrder(self, ctx):
         children = self.visitChildren(ctx)
-        operator = children[1].symbol.type
+        # children: lhs, [NOT,] operator, rhs
+        negated = len(children) > 3
+        operator = children[2 if negated else 1].symbol.type
         if operator == self.parser_class.GT:
             return self.instantiate(
                 "GreaterThanComparisonExpression", children[0],
-                children[3 if len(children) > 3 else 2], False,
+                children[3 if len(children) > 3 else 2], negated,
             )
         elif operator == self.parser_class.LT:
             return self.instantiate(
                 "LessThanComparisonExpression", children[0],
-                children[3 if len(children) > 3 else 2], False,
+                children[3 if len(children) > 3 else 2], negated,
             )
         elif operator == self.parser_class.GE:
             return self.instantiate(
                 "GreaterThanEqualComparisonExpression", children[0],
-                children[3 if len(children) > 3 else 2], False,
+                children[3 if len(children) > 3 else 2], negated,
             )
         elif operator == self.parser_class.LE:
             return self.instantiate(
                 "LessThanEqualComparisonExpression", children[0],
-                children[3 if len(children) > 3 else 2], False,
+                children[3 if len(children) > 3 else 2], negated,
             )
 
     # Visit a parse tree produced by STIXPatternParser#propTestSet.
     def visitPropTestSet(self, ctx):
         children = self.visitChildren(ctx)
-        return self.instantiate("InComparisonExpression", children[0], children[3 if len(children) > 3 else 2], False)
+        return self.instantiate("InComparisonExpression", children[0], children[3 if len(children) > 3 else 2], len(children) > 3)
 
     # Visit a parse tree produced by STIXPatternParser#propTestLike.
     def visitPropTestLike(self, ctx):
         children = self.visitChildren(ctx)
-        return self.instantiate("LikeComparisonExpression", children[0], children[3 if len(children) > 3 else 2], False)
+        return self.instantiate("LikeComparisonExpression", children[0], children[3 if len(children) > 3 else 2], len(children) > 3)
 
     # Visit a parse tree produced by STIXPatternParser#propTestRegex.
     def visitPropTestRegex(self, ctx):
         children = self.visitChildren(ctx)
         return self.instantiate(
             "MatchesComparisonExpression", children[0], children[3 if len(children) > 3 else 2],
-            False,
+            len(children) > 3,
         )
 
     # Visit a parse tree produced by STIXPatternParser#propTestIsSubset.
     def visitPropTestIsSubset(self, ctx):
         children = self.visitChildren(ctx)
-        return self.instantiate("IsSubsetComparisonExpression", children[0], children[3 if len(children) > 3 else 2])
+        return self.instantiate("IsSubsetComparisonExpression", children[0], children[3 if len(children) > 3 else 2], len(children) > 3)
 
     # Visit a parse tree produced by STIXPatternParser#propTestIsSuperset.
     def visitPropTestIsSuperset(self, ctx):
         children = self.visitChildren(ctx)
-        return self.instantiate("IsSupersetComparisonExpression", children[0], children[3 if len(children) > 3 else 2])
+        return self.instantiate("IsSupersetComparisonExpression", children[0], children[3 if len(children) > 3 else 2], len(children) > 3)
 
     # Visit a parse tree produced by STIXPatternParser#propTestParen.
     def visitPropTestParen(self, ctx):
